@@ -278,6 +278,16 @@ func c08Tables(c *Ctx) {
 		}
 	}
 	c.R.Stats["C08.valueToGo_cases"] = len(t1)
+	// the Go type read for a storage class holds every value of the class
+	lossless := map[string]string{"INTEGER": "int64", "FLOAT": "float64", "TEXT": "string", "BLOB": "[]byte", "NULL": "nil"}
+	for _, s := range []string{"INTEGER", "FLOAT", "TEXT", "BLOB", "NULL"} {
+		g, ok := t1[s]
+		if !ok {
+			continue
+		}
+		c.R.Cond(g == lossless[s], rule, "sqlite.valueToGo: "+s+" read at full width", c.P.Pos(v2g.Pos()),
+			s+" is read as "+lossless[s], fmt.Sprintf("SQLITE_%s is read as %s, not %s: the binding's narrower accessor drops part of the value before s3db sees it (Value.Int() is sqlite3_value_int: the low 32 bits) — integers 2^32 apart become one key, large keys are stored as different numbers", s, g, lossless[s]))
+	}
 	c.R.Stats["C08.NewKey_cases"] = len(t2)
 	c.R.Stats["C08.setContextResult_cases"] = len(t5)
 	resultClass := map[string]string{"ResultInt64": "INTEGER", "ResultInt": "INTEGER", "ResultFloat": "FLOAT", "ResultText": "TEXT", "ResultBlob": "BLOB", "ResultNull": "NULL"}
@@ -498,5 +508,234 @@ func c08Unaltered(c *Ctx) {
 			c.R.Cond(via == "", rule, fmt.Sprintf("%s: key #%d reaches NewKey unaltered", fname, n), c.P.Pos(call.Pos()),
 				"the key value is the statement's value", "the key passes through "+via+" before it becomes a Key (canonicalised / altered): a REAL 2.0 key would come back as INTEGER 2")
 		}
+	}
+}
+
+// ---- C08.read-once: a value is not read with a converting accessor before it is dispatched on its type
+
+func init() {
+	register(&Rule{Name: "C08.read-once", Min: 2, Run: c08ReadOnce,
+		Doc: "no sqlite.Value is read with a converting accessor (Text / Blob / Len) before it is dispatched on its Type(): sqlite3_value_text() converts a BLOB or number in place, after which Type() reports TEXT"})
+	byProp["C08"] = append(byProp["C08"], "C08.read-once")
+	byProp["C07"] = append(byProp["C07"], "C08.read-once", "C08.tables")
+	byProp["C08"] = append(byProp["C08"], "C02.time")
+	explain["C07"] += " tables / read-once (shared with C08): key values reach the comparator through valueToGo, so each storage class must be read at full width (an INTEGER read through the 32-bit accessor makes keys 2^32 apart equal) and before any in-place conversion."
+	explain["C08"] += " time (shared with C02): a written value survives a merge with other writers' versions only if the merged row's column times are expressed relative to the time the merged entry is stored under; otherwise the merged row claims a future write time and later writes are silently dropped."
+	explain["C08"] += " read-once: sqlite3_value_text / _blob / _bytes may convert the value in place (SQLite C API), so after key.Text() a BLOB key reports Type()==TEXT and valueToGo builds a TEXT key: the row is not found and the UPDATE silently does nothing. In every callback of package sqlite (with one-level summaries of helpers), no converting accessor that is not inside the matching arm of a dispatch on the value's own Type() can run before the same value (or the slice holding it) reaches a type dispatch (valueToGo / valuesToGo / Type())."
+}
+
+// liveBlocks: blocks reachable from the entry when branches on constant conditions are pruned.
+func liveBlocks(fn *ssa.Function) map[*ssa.BasicBlock]bool {
+	live := map[*ssa.BasicBlock]bool{}
+	if len(fn.Blocks) == 0 {
+		return live
+	}
+	work := []*ssa.BasicBlock{fn.Blocks[0]}
+	for len(work) > 0 {
+		b := work[len(work)-1]
+		work = work[:len(work)-1]
+		if live[b] {
+			continue
+		}
+		live[b] = true
+		succs := b.Succs
+		if iff, ok := b.Instrs[len(b.Instrs)-1].(*ssa.If); ok {
+			if v, isC := constBool(iff.Cond); isC {
+				if v {
+					succs = succs[:1]
+				} else {
+					succs = succs[1:]
+				}
+			}
+		}
+		work = append(work, succs...)
+	}
+	return live
+}
+
+const riyazaliPkg = "go.riyazali.net/sqlite"
+
+func isSqliteValue(t types.Type) bool {
+	n := an.NamedOf(t)
+	return n != nil && n.Obj().Pkg() != nil && n.Obj().Pkg().Path() == riyazaliPkg && n.Obj().Name() == "Value"
+}
+
+// valueRoot: the parameter (a Value or a slice of Values) an expression of type sqlite.Value comes from.
+func valueRoot(v ssa.Value) ssa.Value {
+	for i := 0; i < 8; i++ {
+		switch x := v.(type) {
+		case *ssa.UnOp:
+			if x.Op != token.MUL {
+				return v
+			}
+			v = x.X
+		case *ssa.IndexAddr:
+			v = x.X
+		case *ssa.Index:
+			v = x.X
+		case *ssa.Alloc:
+			// spilled parameter / range copy: single store
+			var src ssa.Value
+			n := 0
+			for _, r := range *x.Referrers() {
+				if st, ok := r.(*ssa.Store); ok && st.Addr == ssa.Value(x) {
+					src = st.Val
+					n++
+				}
+			}
+			if n != 1 {
+				return v
+			}
+			v = src
+		case *ssa.Slice:
+			v = x.X
+		case *ssa.Phi:
+			return v
+		default:
+			return v
+		}
+	}
+	return v
+}
+
+func c08ReadOnce(c *Ctx) {
+	const rule = "C08.read-once"
+	fns := c.P.RepoFuncs(func(rel string) bool { return rel == "sqlite" })
+	converting := map[string]bool{"Text": true, "Blob": true, "Len": true}
+	type ev struct {
+		in   ssa.Instruction
+		root ssa.Value
+		what string
+	}
+	// summaries: which parameters a function converts (unguarded) / dispatches on
+	conv := map[*ssa.Function]map[int]string{}
+	disp := map[*ssa.Function]map[int]bool{}
+	paramIndex := func(fn *ssa.Function, v ssa.Value) int {
+		for i, p := range fn.Params {
+			if ssa.Value(p) == v {
+				return i
+			}
+		}
+		return -1
+	}
+	typeGuarded := func(call ssa.CallInstruction, root ssa.Value) bool {
+		// some enclosing case compares Type() of the same root with a constant
+		for b := call.Block(); b != nil; b = b.Idom() {
+			if len(b.Preds) != 1 {
+				continue
+			}
+			p := b.Preds[0]
+			iff, ok := p.Instrs[len(p.Instrs)-1].(*ssa.If)
+			if !ok {
+				continue
+			}
+			cond, _ := an.StripNot(iff.Cond)
+			bo, ok := cond.(*ssa.BinOp)
+			if !ok {
+				continue
+			}
+			for _, side := range []ssa.Value{bo.X, bo.Y} {
+				if cl, ok := side.(*ssa.Call); ok && calleeLabel(cl) == "Type" {
+					if rv := an.RecvValue(cl); rv != nil && valueRoot(rv) == root {
+						return true
+					}
+				}
+			}
+		}
+		return false
+	}
+	events := func(fn *ssa.Function) (cs, ds []ev) {
+		live := liveBlocks(fn)
+		for _, call := range an.Calls(fn) {
+			if !live[call.Block()] {
+				continue
+			}
+			cc := call.Common()
+			if f := cc.StaticCallee(); f != nil && an.PkgPathOf(f) == riyazaliPkg && len(cc.Args) > 0 && isSqliteValue(cc.Args[0].Type()) {
+				root := valueRoot(cc.Args[0])
+				switch {
+				case converting[f.Name()]:
+					if !typeGuarded(call, root) {
+						cs = append(cs, ev{call, root, "Value." + f.Name() + "()"})
+					}
+				case f.Name() == "Type":
+					ds = append(ds, ev{call, root, "Type()"})
+				}
+				continue
+			}
+			if f := cc.StaticCallee(); f != nil {
+				for i, a := range cc.Args {
+					if w, ok := conv[f][i]; ok {
+						cs = append(cs, ev{call, valueRoot(a), core.FuncName(f) + " (" + w + ")"})
+					}
+					if disp[f][i] {
+						ds = append(ds, ev{call, valueRoot(a), core.FuncName(f)})
+					}
+				}
+			}
+		}
+		return
+	}
+	for round := 0; round < 3; round++ {
+		for _, fn := range fns {
+			cs, ds := events(fn)
+			for _, e := range cs {
+				if i := paramIndex(fn, e.root); i >= 0 {
+					if conv[fn] == nil {
+						conv[fn] = map[int]string{}
+					}
+					conv[fn][i] = e.what
+				}
+			}
+			for _, e := range ds {
+				if i := paramIndex(fn, e.root); i >= 0 {
+					if disp[fn] == nil {
+						disp[fn] = map[int]bool{}
+					}
+					disp[fn][i] = true
+				}
+			}
+		}
+	}
+	n := 0
+	for _, fn := range fns {
+		cs, ds := events(fn)
+		if len(ds) == 0 {
+			continue
+		}
+		name := core.FuncName(fn)
+		roots := map[ssa.Value]bool{}
+		for _, d := range ds {
+			roots[d.root] = true
+		}
+		for root := range roots {
+			n++
+			var bad *ev
+			var at ev
+			for i := range cs {
+				a := cs[i]
+				if a.root != root {
+					continue
+				}
+				for _, d := range ds {
+					if d.root != root || d.in == a.in {
+						continue
+					}
+					if an.InstrBefore(a.in, d.in) || a.in.Block() != d.in.Block() && an.ReachableFromBlock(a.in.Block(), d.in.Block(), nil) {
+						bad, at = &cs[i], d
+					}
+				}
+			}
+			c.R.SawFunc(name)
+			key := fmt.Sprintf("%s: %s dispatched before any conversion", name, root.Name())
+			if bad != nil {
+				c.R.Bad(rule, key, c.P.Pos(bad.in.Pos()), fmt.Sprintf("%s runs on the value before it is dispatched on its type by %s at %s: sqlite3_value_text/_blob convert in place, so a BLOB (or numeric) value reports TEXT afterwards — a BLOB-keyed row is looked up under a TEXT key, not found, and the UPDATE/DELETE silently does nothing", bad.what, at.what, c.P.Pos(at.in.Pos())))
+			} else {
+				c.R.OK(rule, key, c.P.Pos(fn.Pos()), "no unguarded converting accessor can run before the type dispatch")
+			}
+		}
+	}
+	if n == 0 {
+		c.R.Unk(rule, "sqlite: type dispatches", "-", "no dispatch on a sqlite.Value's type found")
 	}
 }
